@@ -317,20 +317,22 @@ class HarnessError(Exception):
 
 
 class _pool:
-    """spawn-context pool that is closed and joined (not terminated) on exit."""
+    """spawn-context process pool with non-daemonic workers (C14's workers start
+    process pools of their own), shut down cleanly on exit."""
 
     def __init__(self, n):
-        self.pool = multiprocessing.get_context("spawn").Pool(n)
+        from concurrent.futures import ProcessPoolExecutor
+
+        self.ex = ProcessPoolExecutor(max_workers=n, mp_context=multiprocessing.get_context("spawn"))
 
     def __enter__(self):
-        return self.pool
+        return self
+
+    def imap(self, fn, items):
+        return self.ex.map(fn, items)
 
     def __exit__(self, *exc):
-        if exc[0] is None:
-            self.pool.close()
-        else:
-            self.pool.terminate()
-        self.pool.join()
+        self.ex.shutdown(wait=True, cancel_futures=exc[0] is not None)
         return False
 
 
